@@ -39,7 +39,8 @@ type rtKey struct {
 	pk    []byte
 }
 
-func (k rtKey) raw() []byte { return sdk.NewPKey("default", k.table, k.pk).RawKey }
+func (k rtKey) raw() []byte            { return k.rawNs("default") }
+func (k rtKey) rawNs(ns string) []byte { return sdk.NewPKey(ns, k.table, k.pk).RawKey }
 
 // rtAdversarial: keys chosen to separate "hash of the whole key" from "hash of the part
 // after the namespace", separator handling, sign handling and length handling.
@@ -141,13 +142,14 @@ type rtDrv struct {
 	conn   *goredis.PoolConn
 	P      int
 	hosted []int
-	keys   []rtKey // key id k (1-based) = keys[k-1]
-	part   []int   // SDK partition per key id
+	keys   []rtKey  // key id k (1-based) = keys[k-1]
+	knss   []string // namespace of key id k
+	part   []int    // SDK partition per key id
 	cnt    map[string]int
 	cross  bool // let MGET span partitions (trigger of known finding route-mget-first-key)
 }
 
-func (d *rtDrv) rawOf(id int) string { return string(d.keys[id-1].raw()) }
+func (d *rtDrv) rawOf(id int) string { return string(d.keys[id-1].rawNs(d.knss[id-1])) }
 
 func (d *rtDrv) where(ids []int) {
 	seen := map[int]bool{}
@@ -160,7 +162,7 @@ func (d *rtDrv) where(ids []int) {
 		real := append([]byte(k.table+":"), k.pk...)
 		parts := []int{}
 		for _, p := range d.hosted {
-			n := d.cs.kv.GetNamespaceFromFullName("default-" + strconv.Itoa(p))
+			n := d.cs.kv.GetNamespaceFromFullName(d.knss[id-1] + "-" + strconv.Itoa(p))
 			if n == nil {
 				continue
 			}
@@ -246,20 +248,35 @@ func (d *rtDrv) do(name string, ids []int, vals []int) {
 	if len(ids) > 1 && len(np) > 1 {
 		d.cnt["multikey_spanning_partitions"]++
 	}
+	for _, id := range ids {
+		if d.knss[id-1] != d.knss[ids[0]-1] {
+			d.cnt["multikey_mixing_namespaces"]++
+			break
+		}
+	}
 	if name == "set" || name == "del" || name == "plset" {
 		d.where(ids)
 	}
 }
 
-func (d *rtDrv) randIds(n int, onePart bool) []int {
+func (d *rtDrv) randIds(n int, onePart bool) []int { return d.randIdsNs(n, onePart, false) }
+
+// randIdsNs: sameNs forces keys of one namespace (MGET: the open finding route-mget-first-key is
+// defined by keys spanning partitions; its namespace variant has the same root and is kept out)
+func (d *rtDrv) randIdsNs(n int, onePart bool, sameNs bool) []int {
 	ids := make([]int, 0, n)
 	first := 1 + d.rng.Intn(len(d.keys))
+	// three multi-key commands in four name keys of one namespace only
+	oneNs := onePart || sameNs || d.rng.Intn(4) > 0
 	for len(ids) < n {
 		id := 1 + d.rng.Intn(len(d.keys))
 		if len(ids) == 0 {
 			id = first
 		}
 		if onePart && d.part[id-1] != d.part[first-1] {
+			continue
+		}
+		if oneNs && d.knss[id-1] != d.knss[first-1] {
 			continue
 		}
 		ids = append(ids, id)
@@ -283,7 +300,7 @@ func (d *rtDrv) session(steps int) {
 		case c < 66:
 			d.do("exists", d.randIds(n, false), nil)
 		case c < 82:
-			d.do("mget", d.randIds(n, !d.cross), nil)
+			d.do("mget", d.randIdsNs(n, !d.cross, true), nil)
 		default:
 			ids := d.randIds(n, false)
 			vals := make([]int, len(ids))
@@ -352,11 +369,34 @@ func rtServe(tw *trace.Writer, base string, seed int64, eng string, P int, drop 
 		d.keys = append(d.keys, k)
 		d.part = append(d.part, p)
 	}
-	srv := make([]int, len(d.keys))
-	for i, k := range d.keys {
-		srv[i], _, _ = serverPartition(k.raw(), P)
+	// a second namespace with the same partitions hosted; some of its keys have the same table and
+	// primary key as keys of the first namespace
+	if err := cs.addNamespace("other", P, hosted, 3000); err != nil {
+		return err
 	}
-	tw.Emit(trace.M{"ev": "reset", "P": P, "hosted": hosted, "part": d.part, "srv": srv, "cross": cross})
+	if err := cs.waitLeaders(60 * time.Second); err != nil {
+		return err
+	}
+	nfirst := len(d.keys)
+	for i := 0; i < nfirst; i++ {
+		d.knss = append(d.knss, "default")
+	}
+	for i := 0; i < nfirst && i < 4+P; i += 2 {
+		k := d.keys[i]
+		d.keys = append(d.keys, k)
+		d.knss = append(d.knss, "other")
+		d.part = append(d.part, sdk.GetHashedPartitionID(sdk.NewPKey("other", k.table, k.pk).ShardingKey(), P))
+	}
+	srv := make([]int, len(d.keys))
+	nsid := make([]int, len(d.keys))
+	for i, k := range d.keys {
+		srv[i], _, _ = serverPartition(k.rawNs(d.knss[i]), P)
+		nsid[i] = 1
+		if d.knss[i] != "default" {
+			nsid[i] = 2
+		}
+	}
+	tw.Emit(trace.M{"ev": "reset", "P": P, "hosted": hosted, "part": d.part, "srv": srv, "ns": nsid, "cross": cross})
 	c := goredis.NewClient("127.0.0.1:"+strconv.Itoa(cs.redis), "")
 	defer c.Close()
 	for k := 0; k < 50; k++ {
